@@ -1,6 +1,7 @@
 package main
 
 import (
+	"fmt"
 	"bytes"
 	"io"
 	"math/rand"
@@ -50,6 +51,63 @@ func init() {
 		gen := components["fmt.node"]
 		for _, cs := range caseSeeds(seed, n, "C13") {
 			r := rand.New(rand.NewSource(cs))
+			if r.Intn(6) == 0 {
+				// ---- package read-writer: read a package, drop / keep resources, write it back — whatever annotations the
+				// stored resources carry and whatever options are set, nothing outside the package is created, changed or deleted
+				fs := filesys.MakeFsInMemory()
+				fs.MkdirAll("/pkg/dir/sub")
+				fs.MkdirAll("/pkg/shared")
+				outside := map[string]string{"/pkg/shared/keep.yaml": "keep: shared\n", "/other/victim.yaml": "keep: me\n", "/pkg/sibling.yaml": "keep: sib\n"}
+				for p, c := range outside {
+					fs.WriteFile(p, []byte(c))
+				}
+				evil := []string{"../shared/keep.yaml", "../sibling.yaml", "/other/victim.yaml", "sub/../../shared/keep.yaml", "", ".", ".."}
+				nfiles := 0
+				for i, fn := range []string{"a.yaml", "b.yaml", "sub/c.yaml"} {
+					if r.Intn(4) == 0 {
+						continue
+					}
+					nfiles++
+					doc := fmt.Sprintf("apiVersion: v1\nkind: ConfigMap\nmetadata:\n  name: cm%d\n", i)
+					if r.Intn(2) == 0 {
+						pa := pickS(r, evil)
+						doc += "  annotations:\n    config.kubernetes.io/path: '" + pa + "'\n    internal.config.kubernetes.io/path: '" + pa + "'\n"
+					}
+					fs.WriteFile("/pkg/dir/"+fn, []byte(doc))
+				}
+				rw := &kio.LocalPackageReadWriter{PackagePath: "/pkg/dir", FileSystem: filesys.FileSystemOrOnDisk{FileSystem: fs},
+					OmitReaderAnnotations: r.Intn(2) == 0, NoDeleteFiles: r.Intn(4) == 0, KeepReaderAnnotations: r.Intn(3) == 0, IncludeSubpackages: true}
+				in := map[string]interface{}{"mode": "pkg-readwrite", "omit": rw.OmitReaderAnnotations, "noDelete": rw.NoDeleteFiles, "files": dumpFS(fs, "/pkg/dir")}
+				nodes, err := rw.Read()
+				if err != nil {
+					o.note("pkg-rw-read-error", in)
+					continue
+				}
+				var kept []*yaml.RNode
+				for _, nd := range nodes {
+					if r.Intn(3) != 0 {
+						kept = append(kept, nd)
+					}
+				}
+				werr := rw.Write(kept)
+				o.note("pkg-rw-"+map[bool]string{true: "ok", false: "rejected"}[werr == nil], in)
+				after := dumpFS(fs, "/")
+				for p, c := range outside {
+					if after[p] != c {
+						o.fail("package-write-escapes", "reading a package and writing it back changed or deleted "+p+" outside the package directory", cs, in, after[p], c)
+					}
+				}
+				for p := range after {
+					if !strings.HasPrefix(p, "/pkg/dir/") && outside[p] == "" {
+						o.fail("package-write-escapes", "reading a package and writing it back created "+p+" outside the package directory", cs, in, p, nil)
+					}
+				}
+				if !fs.IsDir("/pkg/dir") {
+					o.fail("package-write-escapes", "writing the package back removed the package directory itself", cs, in, nil, nil)
+				}
+				_ = nfiles
+				continue
+			}
 			if r.Intn(4) == 0 {
 				// ---- package writer: files are created only inside the package, whatever the path annotation says
 				fs := filesys.MakeFsInMemory()
